@@ -47,8 +47,9 @@ def check(ctx: Ctx) -> None:
     prio_terms = [t for t in g.terminals.values() if t.priority not in (None, 0)]
     if prio_rules or prio_terms or opts["priority"] not in ("auto", "normal", "invert", None):
         raise AnalysisError("the grammar uses rule/terminal priorities: lemma L1 (order of alternatives decides) does not apply")
-    for bad_opt in ("transformer", "tree_class", "postlex", "edit_terminals"):
-        ctx.ob("C01.config", bad_opt, bad_opt not in opts["other"], f"Lark option {bad_opt} changes the tree the parse function returns", file=FILE, line=g.lark_call.lineno)
+    bad = {k: (v, why) for k, v, why in G.option_findings(g)}
+    for bad_opt in ("transformer", "tree_class", "postlex", "edit_terminals", "lexer_callbacks", "ordered_sets", "use_bytes"):
+        ctx.ob("C01.config", bad_opt, bad_opt not in bad, f"Lark option {bad_opt}={bad.get(bad_opt, ('', ''))[0]!r}: {bad.get(bad_opt, ('', ''))[1]}", file=FILE, line=g.lark_call.lineno)
     ctx.ob("C01.config", "keep_all_tokens", not opts["keep_all_tokens"] and not any(r.keep_all_tokens for r in g.rules),
            "keep_all_tokens is set: operator and bracket tokens become tree children", file=FILE, line=g.lark_call.lineno)
     # the cached parse function uses this parser object on its own parameter
